@@ -761,3 +761,21 @@ SEEDED["C16"] += [
 BENIGN["C16"] += [
     (PSFF, "    xi = numpy.linspace(0, dim, int(4 * dim))\n", "    xi = numpy.linspace(0, 2 * dim, int(8 * dim))\n"),
 ]
+
+# ---- round 9: the three silent misses, as variants of the rules strengthened for them
+SEEDED["C08"] += [
+    (TURBF, "    r = numpy.float64(r)\n", "    r = numpy.asarray(r)\n", "V0.precision"),
+    (TURBF, "    r = numpy.float64(r)\n", "    r = numpy.asarray(r) * 1.0\n", "V0.precision"),
+]
+BENIGN["C08"] += [
+    (TURBF, "    r = numpy.float64(r)\n", "    r = numpy.asarray(r).astype(numpy.float64)\n"),
+    (TURBF, "    r = numpy.float64(r)\n", "    r = numpy.array(r, dtype='float64')\n"),
+]
+SEEDED["C17"] += [
+    (ATM, "    Jh = (cn2*(h**(5./3.))).sum(axis)\n", "    Jh = (cn2*numpy.cbrt(numpy.asarray(h)**5)).sum(axis)\n", "I10"),
+    (ATM, "    slopeVar = slopes.var(axis=(-1))\n\n    r0 = ((0.162 * (wavelength ** 2) * subapDiam ** (-1. / 3)) / slopeVar) ** (3. / 5)\n\n    r0 = r0.mean()\n",
+     "    slopeVar = slopes.var(axis=(-1)).mean()\n\n    r0 = ((0.162 * (wavelength ** 2) * subapDiam ** (-1. / 3)) / slopeVar) ** (3. / 5)\n", "I1.slope-variance-shape"),
+]
+BENIGN["C17"] += [
+    (ATM, "    Jh = (cn2*(h**(5./3.))).sum(axis)\n", "    Jh = (cn2*numpy.cbrt(numpy.asarray(h, dtype=float)**5)).sum(axis)\n"),
+]
